@@ -70,7 +70,7 @@ package nfs
 //@ define TXMODS held, lastst, curop, freshinum, wroteinum, cphase, abits, dirtyinum, cache.Cslot.Obj, map[uint64]*inode.Inode
 //@ define SHRINKMODS muheld, inode.Inode.ShrinkSize, []uint64@inode.Inode.blks, []uint64@alloctxn.AllocTxn.freeBnums, alloctxn.AllocTxn.freeBnums, buf.Buf.dirty, []uint8@buf.Buf.Data
 //@ define FILEMODS inode.Inode.Size, inode.Inode.ShrinkSize, inode.Inode.Atime, inode.Inode.Mtime, inode.Inode.Kind, inode.Inode.Nlink, inode.Inode.Gen, inode.Inode.Inum, inode.Inode.Dcache, []uint64@inode.Inode.blks, alloctxn.AllocTxn.allocBnums, []uint64@alloctxn.AllocTxn.allocBnums, alloctxn.AllocTxn.freeBnums, []uint64@alloctxn.AllocTxn.freeBnums, alloctxn.AllocTxn.allocInums, []uint64@alloctxn.AllocTxn.allocInums, alloctxn.AllocTxn.freeInums, []uint64@alloctxn.AllocTxn.freeInums, buf.Buf.dirty, []uint8@buf.Buf.Data
-//@ define DIRMODS dcache.Dcache.Lastoff, nfstypes.Entry3, cell:*nfstypes.Entry3, nfstypes.Entryplus3, cell:*nfstypes.Entryplus3, map[string]dcache.Dentry, emitted, emitany, emitlast, lastcookie, lastfileid, lastname
+//@ define DIRMODS dcache.Dcache.Lastoff, nfstypes.Entry3, cell:*nfstypes.Entry3, nfstypes.Entryplus3, cell:*nfstypes.Entryplus3, map[string]dcache.Dentry, emitted, emitany, emitlast, lastcookie, lastfileid, lastname, lasthino, lasthgen, lastattrid
 //@ define DIRALLOC dir.dirEnt, dcache.Dcache, map[string]dcache.Dentry, nfstypes.Entry3, nfstypes.Entryplus3
 // a transaction that may be ended either way: open, and every held inode is in sync with it
 //@ specfunc endable(op *fstxn.FsTxn) = txOpen(op) && (forall i uint64 :: held[i] ==> !dirtyinum[i])
@@ -279,7 +279,7 @@ package nfs
 //@   requires [E1-cookie] uint64(start) & 127 == 0 @C13 @C11
 //@   preserves [allocInv] allocInv() @C15 @C04
 //@   allocates buf.Buf, marshal.Enc, marshal.Dec, cell:uint64, []uint8, dir.dirEnt, nfstypes.Entry3, cell:*nfstypes.Entry3
-//@   modifies dip.blks[*], dirtyinum, wroteinum, abits, op.Atxn.allocBnums, []uint64@alloctxn.AllocTxn.allocBnums, []uint8@buf.Buf.Data, buf.Buf.dirty, nfstypes.Entry3, cell:*nfstypes.Entry3, map[string]dcache.Dentry, emitted, emitany, emitlast, lastcookie, lastfileid, lastname
+//@   modifies dip.blks[*], dirtyinum, wroteinum, abits, op.Atxn.allocBnums, []uint64@alloctxn.AllocTxn.allocBnums, []uint8@buf.Buf.Data, buf.Buf.dirty, nfstypes.Entry3, cell:*nfstypes.Entry3, map[string]dcache.Dentry, emitted, emitany, emitlast, lastcookie, lastfileid, lastname, lasthino, lasthgen, lastattrid
 //@   ensures [ibits-same] abits[theIalloc] == old(abits)[theIalloc] @C05
 //@   ensures [E1-sound] emitSound(dip, uint64(start), dip.Size) @C13
 //@   ensures [E3-complete] emitComplete(dip, uint64(start), ite(result.Eof, dip.Size, emitlast + 128)) @C13
@@ -293,12 +293,13 @@ package nfs
 //@   requires [E1-cookie] uint64(start) & 127 == 0 @C13 @C11
 //@   preserves [allocInv] allocInv() @C15 @C04
 //@   allocates buf.Buf, marshal.Enc, marshal.Dec, cell:uint64, []uint8, dir.dirEnt, nfstypes.Entryplus3, cell:*nfstypes.Entryplus3, cache.Cslot, inode.Inode, []uint64, fh.Fh
-//@   modifies dip.blks[*], dirtyinum, wroteinum, abits, op.Atxn.allocBnums, []uint64@alloctxn.AllocTxn.allocBnums, []uint8@buf.Buf.Data, buf.Buf.dirty, nfstypes.Entryplus3, cell:*nfstypes.Entryplus3, emitted, emitany, emitlast, lastcookie, lastfileid, lastname, cache.Cslot.Obj, map[uint64]*inode.Inode, held
+//@   modifies dip.blks[*], dirtyinum, wroteinum, abits, op.Atxn.allocBnums, []uint64@alloctxn.AllocTxn.allocBnums, []uint8@buf.Buf.Data, buf.Buf.dirty, nfstypes.Entryplus3, cell:*nfstypes.Entryplus3, emitted, emitany, emitlast, lastcookie, lastfileid, lastname, lasthino, lasthgen, lastattrid, cache.Cslot.Obj, map[uint64]*inode.Inode, held
 //@   ensures [ibits-same] abits[theIalloc] == old(abits)[theIalloc] @C05
 //@   ensures [E1-sound] emitSound(dip, uint64(start), dip.Size) @C13
 //@   ensures [E3-complete] emitComplete(dip, uint64(start), ite(result.Eof, dip.Size, emitlast + 128)) @C13
 //@   ensures [E5-progress] !result.Eof ==> emitany && emitlast >= uint64(start) && emitlast < dip.Size @C13 @C06
 //@   cbensures [E2-entry] lastcookie == off + 128 && lastfileid == inum && lastname == name @C13
+//@   cbensures [E2-handle] lasthino == inum && lasthgen == ip.Gen && lastattrid == inum @C13 @C08
 //@   ensures [L2-heldsame] held == old(held) @C03 @C06
 //@   ensures dirDone(dip, op) && dip.Size == old(dip.Size) && dip.Kind == 2
 
@@ -310,6 +311,7 @@ package nfs
 //@   ensures [R2-durable] result.Status == 0 ==> lastst == 1 @C01
 //@   ensures [A1-aborted] result.Status != 0 ==> lastst == 3 || lastst == 4 @C09
 //@   ensures [E1-badcookie] uint64(args.Cookie) & 127 != 0 ==> result.Status != 0 @C13 @C11
+//@   ensures [E6-cookie-accepted] result.Status == 10003 ==> uint64(args.Cookie) & 127 != 0 || (ip != nil && uint64(args.Cookie) > ip.Size) @C13
 //@   ensures [E5-progress] result.Status == 0 && !result.Resok.Reply.Eof ==> emitany && emitlast >= uint64(args.Cookie) @C13 @C06
 //@   ensures [L2-quiet] rpcPost(nfs) @C03 @C06 @C14
 
@@ -321,6 +323,7 @@ package nfs
 //@   ensures [R2-durable] result.Status == 0 ==> lastst == 1 @C01
 //@   ensures [A1-aborted] result.Status != 0 ==> lastst == 3 || lastst == 4 @C09
 //@   ensures [E1-badcookie] uint64(args.Cookie) & 127 != 0 ==> result.Status != 0 @C13 @C11
+//@   ensures [E6-cookie-accepted] result.Status == 10003 ==> uint64(args.Cookie) & 127 != 0 || (ip != nil && uint64(args.Cookie) > ip.Size) @C13
 //@   ensures [L2-quiet] rpcPost(nfs) @C03 @C06 @C14
 
 // F1 (C05), I3 (C04): dropping the last link frees the inode's blocks and the
